@@ -60,8 +60,23 @@ type params struct {
 	mock                      bool
 	codeLen                   int // may be negative (out of the property's domain; both sides still agree)
 	maxc, maxv                int
-	ttlx, minb, winr, smsfail bool
+	ttl, mini, win            int64 // TTL, MinInterval, CounterDuration in milliseconds (any sign)
+	smsfail                   bool
 }
+
+// The clock. With the hook vcode.VerifSetNow (build tag vcodenow, see clock_hook.go) the implementation reads a fake clock:
+// clockBase + clockMs milliseconds, advanced by `tick` lines only. Without it (clock_nohook.go) the real clock runs; then the
+// harness uses only durations for which an unknown elapsed time of a few microseconds and the model's elapsed time 0 compare
+// alike: always = -1 ms and never = 9223372037 ms (106.75 days; chosen so that a unit slip by x1000 overflows int64 into a
+// negative duration and flips the regime).
+const (
+	alwaysMs = int64(-1)
+	neverMs  = int64(9223372037)
+)
+
+var clockBase = time.Date(2020, 1, 1, 0, 0, 0, 0, time.UTC)
+
+func msDur(ms int64) tex.Duration { return tex.Duration(ms * int64(time.Millisecond)) }
 
 type pairState struct {
 	accepted int    // accepted sends to this pair
@@ -73,6 +88,11 @@ type pairState struct {
 	// the front (accepted send, or verify that found it). While that number is below CacheSize the entry cannot have been evicted.
 	othersSince  int
 	maybeEvicted bool
+	// time bookkeeping (fake-clock readings in ms; all 0 without the clock hook)
+	sendTime   int64 // reading at the last accepted send
+	winStart   int64 // start of the current counter window
+	winCount   int   // accepted sends in that window
+	winUnknown bool  // the entry may have been evicted and re-created: the window is not known any more
 }
 
 type sess struct {
@@ -84,6 +104,8 @@ type sess struct {
 	codes  []string // code of accepted send k
 	pairs  map[[2]string]*pairState
 	hits   []corr.Hit
+	clockMs int64  // the fake clock reading
+	restore func() // uninstalls the fake clock
 }
 
 func (s *sess) hit(site, what, msg string) {
@@ -134,12 +156,34 @@ func parseInt(s string) (int, bool) {
 	return parseNat(s)
 }
 
+// parseMs: 1…15 decimal digits; parseDur: the same with an optional '-'.
+func parseMs(s string) (int64, bool) {
+	if s == "" || len(s) > 15 {
+		return 0, false
+	}
+	for _, c := range s {
+		if c < '0' || c > '9' {
+			return 0, false
+		}
+	}
+	n, _ := strconv.ParseInt(s, 10, 64)
+	return n, true
+}
+
+func parseDur(s string) (int64, bool) {
+	if strings.HasPrefix(s, "-") {
+		n, ok := parseMs(s[1:])
+		return -n, ok
+	}
+	return parseMs(s)
+}
+
 func parseNew(f []string) (params, bool) {
 	var p params
 	if len(f) != 9 {
 		return p, false
 	}
-	names := []string{"cap", "mock", "len", "maxc", "maxv", "ttlx", "minb", "winr", "smsfail"}
+	names := []string{"cap", "mock", "len", "maxc", "maxv", "ttl", "mini", "win", "smsfail"}
 	vals := make([]string, 9)
 	for i, n := range names {
 		v, ok := field(n, f[i])
@@ -154,9 +198,9 @@ func parseNew(f []string) (params, bool) {
 	p.codeLen, ok[2] = parseInt(vals[2])
 	p.maxc, ok[3] = parseInt(vals[3])
 	p.maxv, ok[4] = parseInt(vals[4])
-	p.ttlx, ok[5] = parseBool(vals[5], true)
-	p.minb, ok[6] = parseBool(vals[6], true)
-	p.winr, ok[7] = parseBool(vals[7], true)
+	p.ttl, ok[5] = parseDur(vals[5])
+	p.mini, ok[6] = parseDur(vals[6])
+	p.win, ok[7] = parseDur(vals[7])
 	p.smsfail, ok[8] = parseBool(vals[8], true)
 	for _, o := range ok {
 		if !o {
@@ -166,32 +210,36 @@ func parseNew(f []string) (params, bool) {
 	return p, true
 }
 
-// never is the "never elapses" duration: about 106.75 days, far longer than any run, and chosen so that a unit slip by
-// a factor 1000 overflows int64 into a negative duration (never*1000 = -9223372036854775616), i.e. flips the regime to "always".
-// The "always" durations are -1ns (TTL, CounterDuration; a slip by /1000 truncates to 0 and flips the fresh-entry window test)
-// and 0 (MinInterval never blocks).
-const never = tex.Duration(9223372036854776)
-
-var _ = time.Duration(never) // tex.Duration is a time.Duration in nanoseconds (fact durationIdentity)
+func (s *sess) fakeNow() time.Time { return clockBase.Add(time.Duration(s.clockMs) * time.Millisecond) }
 
 func (s *sess) start(p params) {
 	cfg := &vcode.Config{CacheSize: int64(p.cap), Mock: p.mock, CodeLen: p.codeLen, MaxCount: p.maxc, MaxVerifyCount: p.maxv,
-		TTL: never, MinInterval: 0, CounterDuration: never}
-	if p.ttlx {
-		cfg.TTL = tex.Duration(-1)
-	}
-	if p.minb {
-		cfg.MinInterval = never
-	}
-	if p.winr {
-		cfg.CounterDuration = tex.Duration(-1)
-	}
+		TTL: msDur(p.ttl), MinInterval: msDur(p.mini), CounterDuration: msDur(p.win)}
 	s.sms = &fakeSMS{fail: p.smsfail}
 	s.logic = vcode.NewSimpleLogic(cfg, s.sms, nil)
 	s.p = p
 	s.inited = true
 	s.hashes, s.codes = nil, nil
 	s.pairs = map[[2]string]*pairState{}
+	s.clockMs = 0
+	if s.restore != nil {
+		s.restore()
+	}
+	s.restore = installClock(s.fakeNow)
+}
+
+func (s *sess) tick(w string) string {
+	t, ok := parseMs(w)
+	if !ok {
+		return "bad-op"
+	}
+	if !clockAvailable {
+		return "no-clock" // this build cannot set the implementation's clock (see clock_nohook.go); the generator emits no tick lines
+	}
+	if t > s.clockMs {
+		s.clockMs = t // a reading below the current one is ignored
+	}
+	return "now=" + strconv.FormatInt(s.clockMs, 10)
 }
 
 func (s *sess) pair(a, p string) *pairState {
@@ -226,7 +274,7 @@ func sharesKey(a1, p1, a2, p2 string) (shared bool) {
 			shared = false
 		}
 	}()
-	cfg := &vcode.Config{CacheSize: 16, Mock: true, CodeLen: 0, MaxCount: 3, MaxVerifyCount: 3, TTL: never, MinInterval: 0, CounterDuration: never}
+	cfg := &vcode.Config{CacheSize: 16, Mock: true, CodeLen: 0, MaxCount: 3, MaxVerifyCount: 3, TTL: msDur(neverMs), MinInterval: msDur(alwaysMs), CounterDuration: msDur(neverMs)}
 	l := vcode.NewSimpleLogic(cfg, &fakeSMS{}, nil)
 	h, err := l.SendSMSCode(a2, p2)
 	if err != nil {
@@ -273,6 +321,13 @@ func mockSpec(phone string, n int) string {
 	return strings.Repeat("0", n-len(phone)) + phone
 }
 
+func (s *sess) lastSend(ps *pairState) string {
+	if ps.accepted == 0 {
+		return "nothing was sent to this pair before"
+	}
+	return fmt.Sprintf("the previous accepted send was at %d ms", ps.sendTime)
+}
+
 func (s *sess) send(a, p string) (out string) {
 	ps := s.pair(a, p)
 	calls := s.sms.calls
@@ -287,6 +342,7 @@ func (s *sess) send(a, p string) (out string) {
 		}()
 		hash, err = s.logic.SendSMSCode(a, p)
 	}()
+	now := s.clockMs
 	defer s.bump(a, p)
 	if panicked {
 		return "panic"
@@ -297,23 +353,52 @@ func (s *sess) send(a, p string) (out string) {
 	case errors.Is(err, errSMS):
 		out = "smsfail"
 	case errors.Is(err, vcode.ErrSendTooFreq):
+		// refused as too frequent: only right when an earlier accepted send is closer than the minimum interval
+		if ps.accepted == 0 || now-ps.sendTime >= s.p.mini {
+			s.hitPair(a, p, "SendSMSCode", "send-refused-without-cause", fmt.Sprintf("send to (%q,%q) at %d ms refused as too frequent: %s, MinInterval=%d ms", a, p, now, s.lastSend(ps), s.p.mini))
+		}
 		return "err:tooFreq"
 	case errors.Is(err, vcode.ErrSendCountLimit):
+		// refused by the count limit: only right when the window is not over and already holds more than MaxCount sends
+		// (an absent or evicted entry: window starting now, count 0)
+		present := ps.accepted > 0 && !ps.winUnknown && !(now-ps.winStart > s.p.win) && ps.winCount > s.p.maxc
+		fresh := !(0 > s.p.win) && 0 > s.p.maxc
+		legit := present
+		if ps.accepted == 0 {
+			legit = fresh
+		} else if s.evictable(ps) || ps.winUnknown {
+			legit = present || fresh || ps.winUnknown
+		}
+		if !legit {
+			s.hitPair(a, p, "SendSMSCode", "send-refused-without-cause", fmt.Sprintf("send to (%q,%q) at %d ms refused by the count limit: window started at %d ms with %d accepted sends, CounterDuration=%d ms, MaxCount=%d", a, p, now, ps.winStart, ps.winCount, s.p.win, s.p.maxc))
+		}
 		return "err:countLimit"
 	default:
 		return "err:other"
 	}
 	// monitors on an accepted send
-	if s.evictable(ps) {
-		ps.accepted = 0 // the entry may have been evicted: interval and window legitimately start over
-	} else {
-		if s.p.minb && ps.accepted >= 1 {
-			s.hitPair(a, p, "SendSMSCode", "min-interval-not-enforced", fmt.Sprintf("send to (%q,%q) accepted although an earlier send was accepted and the minimum interval (106 days) has not passed", a, p))
-		}
-		if !s.p.winr && ps.accepted >= s.p.maxc+1 {
-			s.hitPair(a, p, "SendSMSCode", "count-limit-not-enforced", fmt.Sprintf("send number %d to (%q,%q) accepted within one counter window, MaxCount=%d (the code admits MaxCount+1)", ps.accepted+1, a, p, s.p.maxc))
-		}
+	evictable := s.evictable(ps)
+	if ps.accepted > 0 && !evictable && now-ps.sendTime < s.p.mini {
+		s.hitPair(a, p, "SendSMSCode", "min-interval-not-enforced", fmt.Sprintf("send to (%q,%q) at %d ms accepted although the previous accepted send was at %d ms and MinInterval=%d ms", a, p, now, ps.sendTime, s.p.mini))
 	}
+	switch {
+	case ps.accepted == 0:
+		if !(0 > s.p.win) && 0 > s.p.maxc {
+			s.hitPair(a, p, "SendSMSCode", "count-limit-not-enforced", fmt.Sprintf("first send to (%q,%q) accepted although MaxCount=%d < 0 and the window (CounterDuration=%d ms) has just started", a, p, s.p.maxc, s.p.win))
+		}
+		ps.winStart, ps.winCount = now, 1
+	case ps.winUnknown:
+	case now-ps.winStart > s.p.win && !evictable:
+		ps.winStart, ps.winCount = now, 1 // the window is over: a new one starts with this send
+	case evictable:
+		ps.winUnknown = true // evicted ⇒ new window now; not evicted ⇒ old window continues: cannot be told apart
+	default:
+		if ps.winCount > s.p.maxc {
+			s.hitPair(a, p, "SendSMSCode", "count-limit-not-enforced", fmt.Sprintf("send to (%q,%q) at %d ms accepted as number %d of the window started at %d ms (CounterDuration=%d ms), MaxCount=%d (the code admits MaxCount+1)", a, p, now, ps.winCount+1, ps.winStart, s.p.win, s.p.maxc))
+		}
+		ps.winCount++
+	}
+	ps.sendTime = now
 	for _, h := range s.hashes {
 		if h == hash {
 			s.hit("MD5UUID", "hash-repeated", fmt.Sprintf("hash %q returned by two accepted sends", hash))
@@ -530,20 +615,22 @@ func (s *sess) verify(a, p, cw, hw string) string {
 	// monitors (bookkeeping per (area, phone) pair, independent of how the implementation keys its cache)
 	right := ps.accepted > 0 && ps.hasCode && code == ps.code && hash == ps.hash && hash != ""
 	attempt := ps.attempts + 1
-	desc := fmt.Sprintf("verify (%q,%q) code=%q attempt %d since the last accepted send, MaxVerifyCount=%d → %s", a, p, code, attempt, s.p.maxv, out)
+	now := s.clockMs
+	expired := ps.accepted > 0 && now-ps.sendTime > s.p.ttl
+	desc := fmt.Sprintf("verify (%q,%q) at %d ms code=%q attempt %d since the last accepted send (at %d ms), MaxVerifyCount=%d, TTL=%d ms → %s", a, p, now, code, attempt, ps.sendTime, s.p.maxv, s.p.ttl, out)
 	if out == "ok" {
 		switch {
 		case ps.accepted == 0:
 			s.hitPair(a, p, "VerifySMSCode", "wrong-input-accepted", desc+": nothing was sent to this pair")
 		case !right:
 			s.hitPair(a, p, "VerifySMSCode", "wrong-input-accepted", desc+fmt.Sprintf(": current code of the pair is %q, code or hash differ", ps.code))
-		case s.p.ttlx:
-			s.hit("VerifySMSCode", "wrong-input-accepted", desc+": the lifetime is over (TTL < 0)")
+		case expired:
+			s.hitPair(a, p, "VerifySMSCode", "verified-after-lifetime", desc+": the lifetime of the code is over")
 		}
 		if ps.accepted > 0 && attempt > s.p.maxv {
 			s.hitPair(a, p, "VerifySMSCode", "attempts-not-bounded", desc+": accepted beyond the attempt limit")
 		}
-	} else if right && !s.p.ttlx && attempt <= s.p.maxv && !s.evictable(ps) {
+	} else if right && !expired && attempt <= s.p.maxv && !s.evictable(ps) {
 		if out == "err:retryLimit" && ps.accepted >= 2 {
 			s.hitPair(a, p, "SendSMSCode", "attempts-not-reset", desc+": right code and hash refused although a new code was sent")
 		} else {
@@ -712,6 +799,11 @@ func (s *sess) line(l string) string {
 		}
 		s.start(p)
 		return "new"
+	case f[0] == "tick" && len(f) == 2:
+		if !s.inited {
+			return "bad-op"
+		}
+		return s.tick(f[1])
 	case f[0] == "send" && len(f) == 3:
 		if !s.inited {
 			return "bad-op"
@@ -734,6 +826,11 @@ func (s *sess) line(l string) string {
 
 func run(c corr.Case) corr.Result {
 	s := &sess{}
+	defer func() {
+		if s.restore != nil {
+			s.restore()
+		}
+	}()
 	var res corr.Result
 	for _, l := range c.Lines {
 		var o string
@@ -761,8 +858,8 @@ func b01(b bool) string {
 }
 
 func newLine(p params) string {
-	return fmt.Sprintf("new cap=%d mock=%s len=%d maxc=%d maxv=%d ttlx=%s minb=%s winr=%s smsfail=%s", p.cap, b01(p.mock), p.codeLen, p.maxc, p.maxv,
-		b01(p.ttlx), b01(p.minb), b01(p.winr), b01(p.smsfail))
+	return fmt.Sprintf("new cap=%d mock=%s len=%d maxc=%d maxv=%d ttl=%d mini=%d win=%d smsfail=%s", p.cap, b01(p.mock), p.codeLen, p.maxc, p.maxv,
+		p.ttl, p.mini, p.win, b01(p.smsfail))
 }
 
 func genParams(r *rng.R) params {
@@ -771,10 +868,35 @@ func genParams(r *rng.R) params {
 		cap = r.PickInt(0, 1, 2, 2, 3, 3, 4)
 	}
 	return params{cap: cap, mock: r.Bool(), codeLen: r.PickInt(0, 1, 4, 6, 25, 4, 6, 1, 25, 0, -1), maxc: r.PickInt(-1, 0, 1, 2, 3, 3), maxv: r.PickInt(-1, 0, 1, 2, 3, 3, 5),
-		ttlx: r.Chance(1, 6), minb: r.Chance(1, 5), winr: r.Chance(1, 3), smsfail: r.Chance(1, 6)}
+		ttl: pickDur(r, r.Chance(1, 6), neverMs, 0, 1, 5, 1000), mini: pickDur(r, r.Chance(4, 5), neverMs, 0, 1, 3, 1000),
+		win: pickDur(r, r.Chance(1, 3), neverMs, 0, 1, 10, 1000), smsfail: r.Chance(1, 6)}
+}
+
+func pickI64(r *rng.R, xs ...int64) int64 { return xs[r.Intn(len(xs))] }
+
+// pickDur: -1 ms ("always elapsed") when `always`, else the `never` value; with the clock hook also, half of the time, one of
+// the finite durations, whose boundaries the tick lines then probe.
+func pickDur(r *rng.R, always bool, never int64, finite ...int64) int64 {
+	d := never
+	if always {
+		d = alwaysMs
+	}
+	if clockAvailable && r.Chance(1, 2) {
+		d = pickI64(r, finite...)
+	}
+	return d
+}
+
+// regime: the always/never value for a generator class that wants a definite regime.
+func regime(always bool) int64 {
+	if always {
+		return alwaysMs
+	}
+	return neverMs
 }
 
 type gen struct {
+	clock  int64 // the generator's own idea of the fake clock (only used with the clock hook)
 	r      *rng.R
 	p      params
 	pairs  [][2]string
@@ -810,6 +932,35 @@ func (g *gen) pickPairs() {
 	for i := 0; i < n; i++ {
 		g.pairs = append(g.pairs, [2]string{areas[r.Intn(len(areas))], phones[r.Intn(len(phones))]})
 	}
+}
+
+// tickLine advances the clock to a reading at, just before or just after a configured duration away from `from`.
+func (g *gen) tickTo(from int64, d int64, delta int64) string {
+	t := from + d + delta
+	if t < g.clock {
+		t = g.clock
+	}
+	g.clock = t
+	return "tick " + strconv.FormatInt(t, 10)
+}
+
+// maybeTick (clock hook only): with probability 1/3 a tick by 0, 1 or a configured duration -1/0/+1.
+func (g *gen) maybeTick(lines []string) []string {
+	if !clockAvailable || !g.r.Chance(1, 3) {
+		return lines
+	}
+	var ds []int64
+	for _, d := range []int64{g.p.ttl, g.p.mini, g.p.win} {
+		if d >= 0 && d <= 100000 {
+			ds = append(ds, d-1, d, d+1)
+		}
+	}
+	ds = append(ds, 0, 1, 2)
+	d := ds[g.r.Intn(len(ds))]
+	if d < 0 {
+		d = 0
+	}
+	return append(lines, g.tickTo(g.clock, d, 0))
 }
 
 func (g *gen) anyPair() [2]string { return g.pairs[g.r.Intn(len(g.pairs))] }
@@ -871,6 +1022,7 @@ func genHistory(r *rng.R, search bool) corr.Case {
 		n = r.Range(6, 60)
 	}
 	for i := 0; i < n; i++ {
+		lines = g.maybeTick(lines)
 		p := g.anyPair()
 		if r.Chance(1, 3) || i == 0 {
 			lines = append(lines, g.sendLine(p))
@@ -887,9 +1039,11 @@ func genHistory(r *rng.R, search bool) corr.Case {
 // attempts: guesses up to / beyond the attempt limit, then the right code; re-send; right code again.
 func genAttempts(r *rng.R) corr.Case {
 	g := &gen{r: r, p: genParams(r)}
-	g.p.ttlx, g.p.minb = r.Chance(1, 10), false
+	if !clockAvailable || r.Chance(1, 2) {
+		g.p.ttl, g.p.mini = regime(r.Chance(1, 10)), alwaysMs
+		g.p.win = regime(r.Chance(1, 2))
+	}
 	g.p.maxc = r.PickInt(3, 3, 0, -1)
-	g.p.winr = r.Chance(1, 2)
 	g.pickPairs()
 	p := g.anyPair()
 	lines := []string{newLine(g.p), g.sendLine(p)}
@@ -897,6 +1051,7 @@ func genAttempts(r *rng.R) corr.Case {
 	for k := 0; k < rounds; k++ {
 		wrongs := g.p.maxv + r.Range(-2, 2)
 		for i := 0; i < wrongs; i++ {
+			lines = g.maybeTick(lines)
 			lines = append(lines, g.verifyLine(p, r.Pick("wrong", "wrong", "wrong", "cur"), r.Pick("hcur", "hcur", "hx")))
 			if r.Chance(1, 6) {
 				q := g.anyPair()
@@ -916,12 +1071,15 @@ func genAttempts(r *rng.R) corr.Case {
 // limits: MaxCount+1 / MaxCount+2 sends per pair, in every interval / window regime.
 func genLimits(r *rng.R) corr.Case {
 	g := &gen{r: r, p: genParams(r)}
-	g.p.minb, g.p.winr = r.Chance(1, 3), r.Chance(1, 3)
+	if !clockAvailable || r.Chance(1, 2) {
+		g.p.mini, g.p.win = regime(!r.Chance(1, 3)), regime(r.Chance(1, 3))
+	}
 	g.pickPairs()
 	lines := []string{newLine(g.p)}
 	p, q := g.anyPair(), g.anyPair()
 	n := g.p.maxc + r.Range(1, 4)
 	for i := 0; i < n; i++ {
+		lines = g.maybeTick(lines)
 		lines = append(lines, g.sendLine(p))
 		if r.Chance(1, 3) {
 			lines = append(lines, g.verifyLine(p, g.codeArg(), g.hashArg()))
@@ -941,7 +1099,7 @@ func genCross(r *rng.R) corr.Case {
 	if g.p.codeLen < 20 {
 		g.p.mock = true
 	}
-	g.p.ttlx, g.p.minb, g.p.maxv = false, false, r.PickInt(3, 3, 1)
+	g.p.ttl, g.p.mini, g.p.maxv = neverMs, alwaysMs, r.PickInt(3, 3, 1)
 	if g.p.maxc < 0 {
 		g.p.maxc = 1
 	}
@@ -964,8 +1122,8 @@ func genCross(r *rng.R) corr.Case {
 func genEvict(r *rng.R) corr.Case {
 	g := &gen{r: r, p: genParams(r)}
 	g.p.cap = r.PickInt(1, 2, 2, 3, 3, 0)
-	g.p.ttlx = false
-	g.p.minb, g.p.winr = r.Chance(1, 2), r.Chance(1, 4)
+	g.p.ttl = neverMs
+	g.p.mini, g.p.win = regime(!r.Chance(1, 2)), regime(r.Chance(1, 4))
 	g.p.maxv = r.PickInt(2, 3, 5)
 	g.pickPairs()
 	for len(g.pairs) < g.p.cap+2 {
@@ -973,6 +1131,7 @@ func genEvict(r *rng.R) corr.Case {
 	}
 	lines := []string{newLine(g.p)}
 	for i := r.Range(6, 24); i > 0; i-- {
+		lines = g.maybeTick(lines)
 		p := g.anyPair()
 		switch r.Intn(5) {
 		case 0, 1:
@@ -984,6 +1143,52 @@ func genEvict(r *rng.R) corr.Case {
 		}
 	}
 	return corr.Case{Tag: "evict", Lines: lines}
+}
+
+// boundary (clock hook only): every configured duration d is probed at d-1, d and d+1 — the lifetime after a send, the minimum
+// interval between two sends, the counter window after its start — including d = 0 and 1 and the first send (zero setTime).
+func genBoundary(r *rng.R) corr.Case {
+	if !clockAvailable {
+		return genHistory(r, false)
+	}
+	g := &gen{r: r, p: genParams(r)}
+	g.p.cap, g.p.smsfail = 100000, r.Chance(1, 8)
+	d := pickI64(r, 0, 1, 2, 5, 1000, 86400000)
+	delta := pickI64(r, -1, 0, 1)
+	g.pickPairs()
+	p := g.anyPair()
+	t0 := pickI64(r, 0, 1, 7, 1000000)
+	var lines []string
+	switch r.Intn(3) {
+	case 0: // lifetime
+		g.p.ttl, g.p.mini, g.p.win, g.p.maxv, g.p.maxc = d, alwaysMs, regime(r.Bool()), r.PickInt(2, 3, 5), r.PickInt(0, 1, 3)
+		lines = []string{newLine(g.p), g.tickTo(t0, 0, 0), g.sendLine(p), g.tickTo(t0, d, delta), g.verifyLine(p, "cur", "hcur")}
+		if r.Bool() {
+			lines = append(lines, g.tickTo(t0, d, delta+1), g.verifyLine(p, "cur", "hcur"))
+		}
+		if r.Bool() { // a re-send starts a new lifetime
+			t1 := g.clock
+			lines = append(lines, g.sendLine(p), g.tickTo(t1, d, pickI64(r, -1, 0, 1)), g.verifyLine(p, "cur", "hcur"))
+		}
+	case 1: // minimum interval (the first send is never too frequent, whatever the interval)
+		g.p.mini, g.p.ttl, g.p.win, g.p.maxc = d, neverMs, regime(r.Bool()), r.PickInt(3, 3, 1)
+		lines = []string{newLine(g.p), g.tickTo(t0, 0, 0), g.sendLine(p), g.tickTo(t0, d, delta), g.sendLine(p)}
+		t1 := g.clock
+		lines = append(lines, g.tickTo(t1, d, pickI64(r, -1, 0, 1)), g.sendLine(p), g.verifyLine(p, "cur", "hcur"))
+	default: // counter window: fill it, then probe its end
+		g.p.win, g.p.mini, g.p.ttl, g.p.maxc = d, alwaysMs, neverMs, r.PickInt(0, 1, 1, 2)
+		lines = []string{newLine(g.p), g.tickTo(t0, 0, 0)}
+		for i := 0; i <= g.p.maxc; i++ {
+			lines = append(lines, g.sendLine(p))
+			if d > 2 && r.Bool() {
+				lines = append(lines, g.tickTo(g.clock, 1, 0))
+			}
+		}
+		lines = append(lines, g.tickTo(t0, d, delta), g.sendLine(p), g.sendLine(p))
+		t1 := g.clock
+		lines = append(lines, g.tickTo(t1, d, pickI64(r, -1, 0, 1)), g.sendLine(p), g.sendLine(p))
+	}
+	return corr.Case{Tag: "boundary", Lines: lines}
 }
 
 var bases = []string{"0123456789", "0123456789", "ab", "a", "abc", "_", "aab", "abcdefghijklmnopqrstuvwxyz", "01"}
@@ -1026,10 +1231,10 @@ func genSample(r *rng.R) corr.Case {
 }
 
 func genMalformed(r *rng.R) corr.Case {
-	lines := []string{r.Pick(newLine(genParams(r)), newLine(genParams(r)), "new cap=100000 mock=2 len=1 maxc=1 maxv=1 ttlx=0 minb=0 winr=0 smsfail=0",
-		"new cap=100000 mock=1 len=x maxc=1 maxv=1 ttlx=0 minb=0 winr=0 smsfail=0", "new", "new len=1 mock=1 maxc=1 maxv=1 ttlx=0 minb=0 winr=0 smsfail=0", "new mock=1 len=1 maxc=1 maxv=1 ttlx=0 minb=0 winr=0 smsfail=0",
-		"new cap=-1 mock=1 len=1 maxc=1 maxv=1 ttlx=0 minb=0 winr=0 smsfail=0", "new cap=x mock=1 len=1 maxc=1 maxv=1 ttlx=0 minb=0 winr=0 smsfail=0",
-		"new cap=100000 mock=1 len=1 maxc=+1 maxv=1 ttlx=0 minb=0 winr=0", "new cap=100000 mock=1 len=-1 maxc=1 maxv=1 ttlx=0 minb=0 winr=0 smsfail=0")}
+	lines := []string{r.Pick(newLine(genParams(r)), newLine(genParams(r)), "new cap=100000 mock=2 len=1 maxc=1 maxv=1 ttl=9223372037 mini=-1 win=9223372037 smsfail=0",
+		"new cap=100000 mock=1 len=x maxc=1 maxv=1 ttl=9223372037 mini=-1 win=9223372037 smsfail=0", "new", "new len=1 mock=1 maxc=1 maxv=1 ttl=9223372037 mini=-1 win=9223372037 smsfail=0", "new mock=1 len=1 maxc=1 maxv=1 ttl=9223372037 mini=-1 win=9223372037 smsfail=0",
+		"new cap=-1 mock=1 len=1 maxc=1 maxv=1 ttl=9223372037 mini=-1 win=9223372037 smsfail=0", "new cap=x mock=1 len=1 maxc=1 maxv=1 ttl=9223372037 mini=-1 win=9223372037 smsfail=0",
+		"new cap=100000 mock=1 len=1 maxc=+1 maxv=1 ttl=9223372037 mini=-1 win=9223372037", "new cap=100000 mock=1 len=-1 maxc=1 maxv=1 ttl=9223372037 mini=-1 win=9223372037 smsfail=0")}
 	bad := []string{"send 1", "send", "send 1 23 4", "verify 1 23 cur", "verify 1 23 cur hcur x", "verify 1 23 cux hcur", "verify 1 23 cur g1",
 		"verify 1 23 c hcur", "verify 1 23 c1x h1", "verify 1 23 cur h1x", "frob 1 2", "", "nonce ab 1", "nonce ab x 1", "nonce ab 1 1,,2", "nonce ab 1 1,-2",
 		"cover", "cover ab cd", "sample ab 1", "sample ab 0 100", "sample _ 1 1000", "sample ab 1 x", "SEND 1 23", "send 1 23", "verify 1 23 cur hcur",
@@ -1040,47 +1245,61 @@ func genMalformed(r *rng.R) corr.Case {
 	return corr.Case{Tag: "malformed", Lines: lines}
 }
 
+// clockCases: boundary witnesses that need the fake clock.
+func clockCases() []corr.Case {
+	tm := "new cap=1000 mock=0 len=6 maxc=1 maxv=5 ttl=5 mini=3 win=10 smsfail=0"
+	return []corr.Case{
+		{Tag: "fixed-clock", Lines: []string{tm, "tick 100", "send 1 2", "tick 104", "verify 1 2 cur hcur", "tick 105", "verify 1 2 cur hcur", "tick 106", "verify 1 2 cur hcur", "tick 50", "verify 1 2 cur hcur"}},
+		{Tag: "fixed-clock", Lines: []string{tm, "tick 100", "send 1 2", "tick 102", "send 1 2", "tick 103", "send 1 2"}},
+		{Tag: "fixed-clock", Lines: []string{tm, "tick 100", "send 1 2", "tick 104", "send 1 2", "tick 110", "send 1 2", "tick 111", "send 1 2", "tick 115", "send 1 2", "tick 119", "send 1 2"}},
+		{Tag: "fixed-clock", Lines: []string{"new cap=1000 mock=1 len=2 maxc=0 maxv=3 ttl=0 mini=0 win=0 smsfail=0", "send 1 23", "verify 1 23 cur hcur", "send 1 23", "tick 1", "verify 1 23 cur hcur", "send 1 23", "send 1 23"}},
+		{Tag: "fixed-clock", Lines: []string{"new cap=1000 mock=1 len=2 maxc=3 maxv=3 ttl=1 mini=1 win=1 smsfail=0", "tick 7", "send 1 23", "send 1 23", "tick 8", "verify 1 23 cur hcur", "send 1 23", "tick 9", "verify 1 23 cur hcur", "tick 10", "verify 1 23 cur hcur"}},
+		{Tag: "fixed-clock", Lines: []string{"new cap=1000 mock=1 len=2 maxc=3 maxv=3 ttl=86400000 mini=60000 win=3600000 smsfail=0", "tick 1000000", "send 86 5551234", "tick 1059999", "send 86 5551234", "tick 1060000", "send 86 5551234",
+			"tick 87460000", "verify 86 5551234 cur hcur", "tick 87460001", "verify 86 5551234 cur hcur"}},
+	}
+}
+
 func fixedCases() []corr.Case {
-	std := "new cap=100000 mock=0 len=6 maxc=3 maxv=3 ttlx=0 minb=0 winr=0 smsfail=0"
-	mock := "new cap=100000 mock=1 len=4 maxc=3 maxv=3 ttlx=0 minb=0 winr=0 smsfail=0"
+	std := "new cap=100000 mock=0 len=6 maxc=3 maxv=3 ttl=9223372037 mini=-1 win=9223372037 smsfail=0"
+	mock := "new cap=100000 mock=1 len=4 maxc=3 maxv=3 ttl=9223372037 mini=-1 win=9223372037 smsfail=0"
 	return []corr.Case{
 		// the dashed key confuses ("1-2","3") with ("1","2-3"): the code sent to one verifies for the other
-		{Tag: "fixed-key-injective", Lines: []string{"new cap=100000 mock=1 len=1 maxc=3 maxv=3 ttlx=0 minb=0 winr=0 smsfail=0", "send 1-2 3", "verify 1 2-3 lit:3 h1"}},
-		{Tag: "fixed-key-injective", Lines: []string{"new cap=100000 mock=0 len=25 maxc=3 maxv=3 ttlx=0 minb=0 winr=0 smsfail=0", "send 1- 3", "send 1 -3", "verify 1- 3 cur hcur", "verify 1 -3 cur hcur",
+		{Tag: "fixed-key-injective", Lines: []string{"new cap=100000 mock=1 len=1 maxc=3 maxv=3 ttl=9223372037 mini=-1 win=9223372037 smsfail=0", "send 1-2 3", "verify 1 2-3 lit:3 h1"}},
+		{Tag: "fixed-key-injective", Lines: []string{"new cap=100000 mock=0 len=25 maxc=3 maxv=3 ttl=9223372037 mini=-1 win=9223372037 smsfail=0", "send 1- 3", "send 1 -3", "verify 1- 3 cur hcur", "verify 1 -3 cur hcur",
 			"send _ -3", "send - 3", "verify _ -3 cur hcur", "send _ _", "verify _ _ cur hcur"}},
 		// a bounded cache forgets (observation): CacheSize 2, two other pairs evict the entry
-		{Tag: "fixed-evict", Lines: []string{"new cap=2 mock=0 len=6 maxc=1 maxv=2 ttlx=0 minb=1 winr=0 smsfail=0", "send 1 1", "send 1 1", "send 1 2", "send 1 3", "verify 1 1 cur hcur", "send 1 1"}},
-		{Tag: "fixed-evict", Lines: []string{"new cap=2 mock=0 len=6 maxc=1 maxv=2 ttlx=0 minb=0 winr=0 smsfail=0", "send 1 1", "send 1 2", "verify 1 1 lit:x hx", "send 1 3", "verify 1 1 cur hcur", "verify 1 2 cur hcur"}},
-		{Tag: "fixed-evict", Lines: []string{"new cap=0 mock=1 len=2 maxc=0 maxv=2 ttlx=0 minb=1 winr=0 smsfail=0", "send 1 23", "verify 1 23 cur hcur", "send 1 23"}},
-		{Tag: "fixed-evict", Lines: []string{"new cap=1 mock=1 len=2 maxc=0 maxv=2 ttlx=0 minb=1 winr=0 smsfail=0", "send 1 23", "verify 1 23 cur hcur", "send 1 23", "send 1 24", "send 1 23"}},
+		{Tag: "fixed-evict", Lines: []string{"new cap=2 mock=0 len=6 maxc=1 maxv=2 ttl=9223372037 mini=9223372037 win=9223372037 smsfail=0", "send 1 1", "send 1 1", "send 1 2", "send 1 3", "verify 1 1 cur hcur", "send 1 1"}},
+		{Tag: "fixed-evict", Lines: []string{"new cap=2 mock=0 len=6 maxc=1 maxv=2 ttl=9223372037 mini=-1 win=9223372037 smsfail=0", "send 1 1", "send 1 2", "verify 1 1 lit:x hx", "send 1 3", "verify 1 1 cur hcur", "verify 1 2 cur hcur"}},
+		{Tag: "fixed-evict", Lines: []string{"new cap=0 mock=1 len=2 maxc=0 maxv=2 ttl=9223372037 mini=9223372037 win=9223372037 smsfail=0", "send 1 23", "verify 1 23 cur hcur", "send 1 23"}},
+		{Tag: "fixed-evict", Lines: []string{"new cap=1 mock=1 len=2 maxc=0 maxv=2 ttl=9223372037 mini=9223372037 win=9223372037 smsfail=0", "send 1 23", "verify 1 23 cur hcur", "send 1 23", "send 1 24", "send 1 23"}},
 		// negative CodeLen (outside the property's domain): mock mode panics, the real sender issues the empty code
-		{Tag: "fixed-neglen", Lines: []string{"new cap=100000 mock=1 len=-1 maxc=3 maxv=3 ttlx=0 minb=0 winr=0 smsfail=0", "send 1 23", "verify 1 23 cur hcur"}},
-		{Tag: "fixed-neglen", Lines: []string{"new cap=100000 mock=0 len=-1 maxc=3 maxv=3 ttlx=0 minb=0 winr=0 smsfail=0", "send 1 23", "verify 1 23 cur hcur", "verify 1 23 lit: h1"}},
-		{Tag: "fixed-neglen", Lines: []string{"new cap=100000 mock=1 len=-2 maxc=-1 maxv=3 ttlx=0 minb=0 winr=0 smsfail=0", "send 1 23"}},
+		{Tag: "fixed-neglen", Lines: []string{"new cap=100000 mock=1 len=-1 maxc=3 maxv=3 ttl=9223372037 mini=-1 win=9223372037 smsfail=0", "send 1 23", "verify 1 23 cur hcur"}},
+		{Tag: "fixed-neglen", Lines: []string{"new cap=100000 mock=0 len=-1 maxc=3 maxv=3 ttl=9223372037 mini=-1 win=9223372037 smsfail=0", "send 1 23", "verify 1 23 cur hcur", "verify 1 23 lit: h1"}},
+		{Tag: "fixed-neglen", Lines: []string{"new cap=100000 mock=1 len=-2 maxc=-1 maxv=3 ttl=9223372037 mini=-1 win=9223372037 smsfail=0", "send 1 23"}},
 		{Tag: "fixed-F17", Lines: []string{std, "send 86 5551234", "verify 86 5551234 cur hcur"}},
 		{Tag: "fixed-F17", Lines: []string{mock, "send 86 5551234", "verify 86 5551234 lit:1234 h1"}},
 		{Tag: "fixed-F18", Lines: []string{std, "cover 0123456789", "nonce 0123456789 3 9,19,29", "nonce 0123456789 4 0,8,10,7"}},
 		{Tag: "fixed-F18", Lines: []string{std, "sample 0123456789 6 1000"}},
 		{Tag: "fixed-F18", Lines: []string{std, "nonce a 1 0", "cover a", "nonce _ 1 0", "nonce _ 0 -", "nonce ab -1 1", "cover _"}},
-		{Tag: "fixed-near-miss", Lines: []string{"new cap=100000 mock=0 len=6 maxc=3 maxv=20 ttlx=0 minb=0 winr=0 smsfail=0", "send 1 23", "verify 1 23 cur hcur^U", "verify 1 23 cur hcur^sp", "verify 1 23 cur hcur^ts",
+		{Tag: "fixed-near-miss", Lines: []string{"new cap=100000 mock=0 len=6 maxc=3 maxv=20 ttl=9223372037 mini=-1 win=9223372037 smsfail=0", "send 1 23", "verify 1 23 cur hcur^U", "verify 1 23 cur hcur^sp", "verify 1 23 cur hcur^ts",
 			"verify 1 23 cur hcur^tr", "verify 1 23 cur hcur^ch", "verify 1 23 cur h1^U", "verify 1 23 cur^z hcur", "verify 1 23 cur^fw hcur", "verify 1 23 cur^ts hcur", "verify 1 23 cur^sp hcur",
 			"verify 1 23 cur^ch hcur", "verify 1 23 cur^tr hcur", "verify 1 23 cur hcur"}},
-		{Tag: "fixed-near-miss", Lines: []string{"new cap=100000 mock=1 len=4 maxc=3 maxv=20 ttlx=0 minb=0 winr=0 smsfail=0", "send 1 23", "verify 1 23 lit:0023 hcur^U", "verify 1 23 cur^z hcur", "verify 1 23 lit:023 hcur",
+		{Tag: "fixed-near-miss", Lines: []string{"new cap=100000 mock=1 len=4 maxc=3 maxv=20 ttl=9223372037 mini=-1 win=9223372037 smsfail=0", "send 1 23", "verify 1 23 lit:0023 hcur^U", "verify 1 23 cur^z hcur", "verify 1 23 lit:023 hcur",
 			"verify 1 23 lit:23 hcur", "verify 1 23 cur^fw hcur", "verify 1 23 lit:0023 hcur"}},
 		{Tag: "fixed-attempts", Lines: []string{std, "send 1 23", "verify 1 23 wrong hcur", "verify 1 23 wrong hcur", "verify 1 23 wrong hcur", "verify 1 23 cur hcur",
 			"send 1 23", "verify 1 23 cur hcur", "verify 1 23 cur hcur", "verify 1 23 cur hcur", "verify 1 23 cur hcur"}},
-		{Tag: "fixed-attempts", Lines: []string{"new cap=100000 mock=1 len=2 maxc=3 maxv=0 ttlx=0 minb=0 winr=0 smsfail=0", "send 1 23", "verify 1 23 cur hcur"}},
-		{Tag: "fixed-attempts", Lines: []string{"new cap=100000 mock=1 len=2 maxc=3 maxv=-1 ttlx=0 minb=0 winr=0 smsfail=0", "send 1 23", "verify 1 23 lit:23 h1"}},
-		{Tag: "fixed-limits", Lines: []string{"new cap=100000 mock=1 len=2 maxc=1 maxv=3 ttlx=0 minb=0 winr=0 smsfail=0", "send 1 23", "send 1 23", "send 1 23", "send 12 3", "verify 1 23 cur hcur"}},
-		{Tag: "fixed-limits", Lines: []string{"new cap=100000 mock=1 len=2 maxc=1 maxv=3 ttlx=0 minb=0 winr=1 smsfail=0", "send 1 23", "send 1 23", "send 1 23", "send 1 23"}},
-		{Tag: "fixed-limits", Lines: []string{"new cap=100000 mock=1 len=2 maxc=-1 maxv=3 ttlx=0 minb=0 winr=0 smsfail=0", "send 1 23", "verify 1 23 cur hcur"}},
-		{Tag: "fixed-limits", Lines: []string{"new cap=100000 mock=0 len=6 maxc=3 maxv=3 ttlx=0 minb=1 winr=0 smsfail=0", "send 1 23", "send 1 23", "send 12 3", "verify 1 23 cur hcur"}},
-		{Tag: "fixed-ttl", Lines: []string{"new cap=100000 mock=0 len=6 maxc=3 maxv=3 ttlx=1 minb=0 winr=0 smsfail=0", "send 1 23", "verify 1 23 cur hcur", "verify 1 23 wrong hcur", "verify 1 23 cur hx"}},
-		{Tag: "fixed-smsfail", Lines: []string{"new cap=100000 mock=0 len=6 maxc=3 maxv=3 ttlx=0 minb=0 winr=0 smsfail=1", "send 1 23", "verify 1 23 cur hcur", "send 1 23", "verify 1 23 cur h1"}},
+		{Tag: "fixed-attempts", Lines: []string{"new cap=100000 mock=1 len=2 maxc=3 maxv=0 ttl=9223372037 mini=-1 win=9223372037 smsfail=0", "send 1 23", "verify 1 23 cur hcur"}},
+		{Tag: "fixed-attempts", Lines: []string{"new cap=100000 mock=1 len=2 maxc=3 maxv=-1 ttl=9223372037 mini=-1 win=9223372037 smsfail=0", "send 1 23", "verify 1 23 lit:23 h1"}},
+		{Tag: "fixed-limits", Lines: []string{"new cap=100000 mock=1 len=2 maxc=1 maxv=3 ttl=9223372037 mini=-1 win=9223372037 smsfail=0", "send 1 23", "send 1 23", "send 1 23", "send 12 3", "verify 1 23 cur hcur"}},
+		{Tag: "fixed-limits", Lines: []string{"new cap=100000 mock=1 len=2 maxc=1 maxv=3 ttl=9223372037 mini=-1 win=-1 smsfail=0", "send 1 23", "send 1 23", "send 1 23", "send 1 23"}},
+		{Tag: "fixed-limits", Lines: []string{"new cap=100000 mock=1 len=2 maxc=-1 maxv=3 ttl=9223372037 mini=-1 win=9223372037 smsfail=0", "send 1 23", "verify 1 23 cur hcur"}},
+		{Tag: "fixed-limits", Lines: []string{"new cap=100000 mock=0 len=6 maxc=3 maxv=3 ttl=9223372037 mini=9223372037 win=9223372037 smsfail=0", "send 1 23", "send 1 23", "send 12 3", "verify 1 23 cur hcur"}},
+		{Tag: "fixed-ttl", Lines: []string{"new cap=100000 mock=0 len=6 maxc=3 maxv=3 ttl=-1 mini=-1 win=9223372037 smsfail=0", "send 1 23", "verify 1 23 cur hcur", "verify 1 23 wrong hcur", "verify 1 23 cur hx"}},
+		{Tag: "fixed-smsfail", Lines: []string{"new cap=100000 mock=0 len=6 maxc=3 maxv=3 ttl=9223372037 mini=-1 win=9223372037 smsfail=1", "send 1 23", "verify 1 23 cur hcur", "send 1 23", "verify 1 23 cur h1"}},
 		{Tag: "fixed-collide", Lines: []string{mock, "send 1 23", "send 12 3", "verify 1 23 cur hcur", "verify 12 3 cur hcur", "verify 12 3 c1 h1", "verify 1 23 c2 h2"}},
-		{Tag: "fixed-mock", Lines: []string{"new cap=100000 mock=1 len=6 maxc=3 maxv=3 ttlx=0 minb=0 winr=0 smsfail=1", "send 1 23", "verify 1 23 lit:000023 h1", "verify 1 23 lit:23 h1", "send 1 7-7", "verify 1 7-7 lit:0007-7 hcur"}},
-		{Tag: "fixed-len0", Lines: []string{"new cap=100000 mock=0 len=0 maxc=3 maxv=3 ttlx=0 minb=0 winr=0 smsfail=0", "send 1 23", "verify 1 23 lit: hcur", "verify 1 23 cur hcur", "verify 1 23 wrong hcur"}},
-		{Tag: "fixed-len0", Lines: []string{"new cap=100000 mock=1 len=0 maxc=3 maxv=3 ttlx=0 minb=0 winr=0 smsfail=0", "send 1 23", "verify 1 23 lit: hcur", "verify 1 23 cur h-"}},
+		{Tag: "fixed-mock", Lines: []string{"new cap=100000 mock=1 len=6 maxc=3 maxv=3 ttl=9223372037 mini=-1 win=9223372037 smsfail=1", "send 1 23", "verify 1 23 lit:000023 h1", "verify 1 23 lit:23 h1", "send 1 7-7", "verify 1 7-7 lit:0007-7 hcur"}},
+		{Tag: "fixed-len0", Lines: []string{"new cap=100000 mock=0 len=0 maxc=3 maxv=3 ttl=9223372037 mini=-1 win=9223372037 smsfail=0", "send 1 23", "verify 1 23 lit: hcur", "verify 1 23 cur hcur", "verify 1 23 wrong hcur"}},
+		{Tag: "fixed-len0", Lines: []string{"new cap=100000 mock=1 len=0 maxc=3 maxv=3 ttl=9223372037 mini=-1 win=9223372037 smsfail=0", "send 1 23", "verify 1 23 lit: hcur", "verify 1 23 cur h-"}},
 	}
 }
 
@@ -1088,6 +1307,8 @@ func genCase(r *rng.R, tier string, i int) corr.Case {
 	search := tier == "search"
 	x := r.Intn(100)
 	switch {
+	case x < 12 && clockAvailable:
+		return genBoundary(r)
 	case x < 36:
 		return genHistory(r, search)
 	case x < 52:
